@@ -66,13 +66,13 @@ theorem inv_step {s : Srv} (hI : Inv s) (i : In) : Inv (step s i).1 := by
     split
     · exact hI
     · split
-      · exact hI
       · intro sid x h
         simp only [lookup_insert] at h
         split at h
         · simp only [Option.some.injEq] at h; subst h
           exact ⟨by simp, by simp, by simp⟩
         · exact hI sid x h
+      · exact hI
   | padt m sid =>
     simp only [step]
     split
@@ -180,8 +180,8 @@ theorem ipcp_ack_requires_auth (radius : Bool) (bits : Nat) (ins : List In) (i :
     split at ho
     · simp at ho
     · split at ho
-      · simp at ho
       · rcases hk with hk | hk <;> subst hk <;> simp at ho
+      · simp at ho
   | padt m' sid' =>
     simp only [step] at ho
     split at ho <;> simp at ho
@@ -261,11 +261,11 @@ theorem ghost_set_only_by_accepted_pap (s : Srv) (i : In) (sid : Nat) (x' : Sess
     split at h
     · exact Or.inl ⟨x', h, ha⟩
     · split at h
-      · exact Or.inl ⟨x', h, ha⟩
       · simp only [lookup_insert] at h
         split at h
         · simp only [Option.some.injEq] at h; subst h; simp at ha
         · exact Or.inl ⟨x', h, ha⟩
+      · exact Or.inl ⟨x', h, ha⟩
   | padt m sid' =>
     simp only [step] at h
     split at h
